@@ -100,4 +100,31 @@ def records(tier, seed):
             recs.append({"env": name, "B": int(td.shape[0]), "steps": int(steps), "bound": int(bound),
                          "finished": steps <= 4 * bound + 10, "minmask": log["minmask"][:steps], "ndone": log["ndone"][:steps],
                          "undone": log["undone"][:steps], "note": "num_loc=%s" % n, "skipped": False})
+    # instances that enter through a LOADER instead of the generator: a Solomon-format instance (raw coordinates, raw demands
+    # and the instance's own capacity) handed to CVRPTWEnv.extract_from_solomon, and a single-technician SVRP
+    import numpy as np
+    from rl4co.envs import CVRPTWEnv, SVRPEnv
+
+    def roll(name, env, td, note):
+        bound = bound_of(name, td, env)
+        log = {"minmask": [], "ndone": [], "undone": [], "prev_done": None}
+        policy = make_uniform_policy(name, log)
+        with torch.no_grad():
+            out = policy(td.clone(), env, decode_type="sampling", max_steps=4 * bound + 10, calc_reward=False)
+        steps = out["actions"].shape[1]
+        recs.append({"env": name, "B": int(td.shape[0]), "steps": int(steps), "bound": int(bound),
+                     "finished": steps <= 4 * bound + 10, "minmask": log["minmask"][:steps], "ndone": log["ndone"][:steps],
+                     "undone": log["undone"][:steps], "note": note, "skipped": False})
+
+    for rep in range(2 if tier == "quick" else 6):
+        k = rnd.choice([4, 6, 9])
+        coord = np.array([[40, 50]] + [[rnd.randint(0, 100), rnd.randint(0, 100)] for _ in range(k)], dtype=float)
+        start = [rnd.randint(0, 800) for _ in range(k)]
+        inst = {"node_coord": coord, "demand": np.array([0] + [rnd.choice([10, 20, 30]) for _ in range(k)]), "capacity": 200,
+                "time_window": np.array([[0, 1236]] + [[s0, s0 + rnd.randint(40, 120)] for s0 in start]),
+                "service_time": np.array([0] + [90] * k)}
+        env = CVRPTWEnv(generator_params={"num_loc": k})
+        roll("cvrptw", env, env.extract_from_solomon(inst), "Solomon-format instance through extract_from_solomon, %d customers" % k)
+        env = SVRPEnv(generator_params={"num_loc": k, "tech_costs": [rnd.choice([1, 2])]})
+        roll("svrp", env, env.reset(batch_size=[rnd.choice([1, 3])]), "single technician, num_loc=%d" % k)
     return recs
